@@ -285,8 +285,21 @@ class Lemma(object):
         return type(self).__name__
 
     def obligations(self):
-        """-> list of (name, hyps(list), goal)"""
+        """-> list of (name, hyps(list), goal[, {input name: (Kind, symbol)}])"""
         return []
+
+    def native_refute(self, obligation, model_values):
+        """replay a counter-model on the real code -> (confirmed: bool, description)"""
+        return False, "no native replay for this lemma"
+
+    def finding_matches(self, finding, model_values):
+        pred = finding.get("key", {}).get("input_class")
+        if not pred:
+            return True
+        try:
+            return bool(eval(pred, {"__builtins__": {"len": len, "bytes": bytes, "str": str, "int": int, "any": any, "all": all}}, dict(model_values or {})))
+        except Exception:
+            return False
 
 
 # ------------------------------------------------------------------ exploring one spec
@@ -393,8 +406,11 @@ _WORK = []
 def _discharge_one(i):
     ob, syms, timeout = _WORK[i]
     try:
-        r = solve.discharge(ob.hyps, ob.goal, timeout)
+        canary = timeout < 0
+        r = solve.discharge(ob.hyps, ob.goal, abs(timeout), use_external=not canary)
         model_vals = None
+        if canary:
+            return (i, r.status, r.solver, r.time_s, None, r.detail)
         if r.status == "sat" and r.model is not None and syms:
             # look for a small counter-model first (replayable sizes)
             for scale in (1, 8, 64):
